@@ -2673,8 +2673,39 @@ func (m *Machine) detectQueueDuplicates(mutationType MutationType,
 	// check if this mutation is already scheduled
 	found, _, _ := m.IsQueued(mutationType, states, true, true, 0, isCheck,
 		PositionAny)
+	if !found {
+		return false
+	}
 
-	return found
+	// a counter mutation scheduled after the latest such mutation makes this
+	// one meaningful again (eg add A, remove A, add A): walk from the newest
+	m.queueMx.RLock()
+	defer m.queueMx.RUnlock()
+	idxs := m.Index(states)
+	for i := len(m.queue) - 1; i >= 0; i-- {
+		mut := m.queue[i]
+		if mut.IsCheck != isCheck {
+			continue
+		}
+		if mut.Type == mutationType {
+			if len(mut.Args) == 0 && len(mut.Called) == len(idxs) &&
+				slicesEvery(mut.Called, idxs) {
+
+				return true
+			}
+			continue
+		}
+		if mut.Type == MutationSet || mutationType == MutationSet {
+			return false
+		}
+		for _, idx := range mut.Called {
+			if slices.Contains(idxs, idx) {
+				return false
+			}
+		}
+	}
+
+	return false
 }
 
 // Transition returns the current transition, if any.
